@@ -13,6 +13,10 @@ const relEps = "(/ 1.0 9007199254740992.0)" // 2^-53
 
 var roundedCache = map[int]*Term{}
 
+// roundedPairs: (exact, rounded) for every relaxed float operation of the run (used to look for a witness with zero
+// rounding error first: it is one of the allowed behaviours and much easier for the non-linear solver)
+var roundedPairs [][2]*Term
+
 func (e *Exec) rounded(st *State, exact *Term) *Term {
 	if exact.IsConst() {
 		return exact
@@ -22,6 +26,7 @@ func (e *Exec) rounded(st *State, exact *Term) *Term {
 	if !ok {
 		r = e.fresh("fl", RealSort)
 		roundedCache[exact.ID] = r
+		roundedPairs = append(roundedPairs, [2]*Term{exact, r})
 	}
 	eps := RealConst(relEps)
 	absx := Ite(App("<", BoolSort, exact, RealConst("0.0")), App("-", RealSort, exact), exact)
